@@ -19,6 +19,10 @@ def py_value(v, variant=0):
     if ty == 'str':
         return ''.join(v['s'])
     if ty == 'dict':
+        if v['n'] == 3:     # plain dicts that merely look like an operator object (one of its two keys only)
+            return {'operator': '<', 'threshold': 3}
+        if v['n'] == 4:
+            return {'value': 10, 'unit': 's'}
         return {'k': v['n'], 'nested': {'z': [v['n']]}}
     raise ValueError(ty)
 
@@ -165,7 +169,8 @@ def beyond_universe(rep, seed, n):
         if k in (4, 5):
             return ''.join(rnd.choice('ab1*?[]!x') for _ in range(rnd.randrange(4)))
         if k == 6:
-            return {'k': rnd.randrange(3)}
+            return rnd.choice([{'k': rnd.randrange(3)}, {'operator': rnd.choice(['<', '=', 'in', ['x']]), 'limit': 1},
+                               {'value': rnd.randrange(3)}])
         return [1, 2]
 
     def rfilter(depth=0):
